@@ -22,6 +22,9 @@ from . import arrays as A
 from .arrays import SArray, SCompressed
 
 
+_AST_CACHE = {}
+
+
 # ------------------------------------------------------------------ control flow
 class ControlFlow(BaseException):
     pass
@@ -240,6 +243,7 @@ class Interp:
         self.trusted = set()
         self.notes = []
         self.python_float_division = False
+        self.in_container_compare = False
         self.loop_bound = 64
         # per-path state
         self.prefix = []
@@ -459,10 +463,15 @@ class Interp:
             if type(a) is not type(b) or len(a) != len(b):
                 return False
             acc = True
-            for x, y in zip(a, b):
-                acc = self.and_val(acc, self.equals(x, y))
-                if acc is False:
-                    return False
+            prev = self.in_container_compare
+            self.in_container_compare = True
+            try:
+                for x, y in zip(a, b):
+                    acc = self.and_val(acc, self.equals(x, y))
+                    if acc is False:
+                        return False
+            finally:
+                self.in_container_compare = prev
             return acc
         if isinstance(a, SDict) and isinstance(b, SDict):
             return self._dict_eq(a, b)
@@ -471,6 +480,11 @@ class Interp:
             return self.equals(a, b.map if isinstance(b, Obj) and b.map is not None else b)
         if isinstance(b, Obj) and b.map is not None:
             return self.equals(a, b.map)
+        if isinstance(a, SArray) and isinstance(b, SArray) and self.in_container_compare:
+            # container comparison calls bool(a == b): ambiguous for arrays with more than one element
+            if self.valid(z3.And(a.len_term() > 1, b.len_term() > 1)):
+                self.raise_py("ValueError", "The truth value of an array with more than one element is ambiguous")
+            raise Unsupported("comparison of arrays of possibly one element inside a container")
         if isinstance(a, (SArray, SCompressed)) or isinstance(b, (SArray, SCompressed)):
             raise Unsupported("== on arrays (elementwise) outside the array domain")
         if isinstance(a, Obj) and isinstance(b, Obj):
@@ -565,8 +579,10 @@ class Interp:
             path = p.with_suffix(".py")
         mod = ModuleVal(dotted, path)
         self.modules[dotted] = mod
-        src = path.read_text()
-        mod.tree = ast.parse(src)
+        key = (str(path), path.stat().st_mtime_ns)
+        if key not in _AST_CACHE:
+            _AST_CACHE[key] = ast.parse(path.read_text())
+        mod.tree = _AST_CACHE[key]
         mod.env.vars["__name__"] = dotted
         for st in mod.tree.body:
             try:
